@@ -163,7 +163,9 @@ func svPreETH(pre *svEthPre, kind int) func(e *svEnv) {
 			}
 		}
 		quick := sv.Tier() == 0
-		if kind == 2 && quick {
+		if svLean {
+			pre.where = sv.Choice("eth.where", 2) // absent, ongoing
+		} else if kind == 2 && quick {
 			pre.where = 1 + sv.Choice("eth.where", 2)*2 // ongoing, or in the failed store
 		} else {
 			pre.where = sv.Choice("eth.where", 4)
@@ -191,8 +193,12 @@ func svPreETH(pre *svEthPre, kind int) func(e *svEnv) {
 				// lock / redeem submissions do not look at the votes
 			} else if quick {
 				// representative vote vectors, rotated over the witness slots
-				vec := [][]int{{0, 0, 0, 0}, {1, 1, 0, 0}, {1, 1, 1, 0}, {2, 2, 0, 0}, {2, 2, 2, 0}, {1, 2, 0, 0}, {1, 1, 2, 0}, {2, 2, 1, 0}}[sv.Choice("eth.votes", 8)]
-				rot := sv.Choice("eth.rotation", 4)
+				nvec, nrot := 8, 4
+				if svLean {
+					nvec, nrot = 3, 2
+				}
+				vec := [][]int{{0, 0, 0, 0}, {1, 1, 0, 0}, {1, 1, 1, 0}, {2, 2, 0, 0}, {2, 2, 2, 0}, {1, 2, 0, 0}, {1, 1, 2, 0}, {2, 2, 1, 0}}[sv.Choice("eth.votes", nvec)]
+				rot := sv.Choice("eth.rotation", nrot)
 				for i := range pre.wit {
 					pre.votes[(i+rot)%4] = vec[i]
 				}
